@@ -1328,9 +1328,12 @@ fn run(v: &Value) -> Result<String, String> {
             }
             perms(&mut Vec::new(), &mut vec![0, 1, 2, 3], &mut orders);
             orders.push(vec![0, 1, 2]); // no middleware at all
+            // two middlewares around the other registrations: each must run exactly once per request for every route kind
+            for o in [vec![0, 1, 2, 3, 4], vec![3, 4, 0, 1, 2], vec![3, 0, 1, 2, 4], vec![1, 3, 4, 0, 2], vec![2, 1, 3, 0, 4]] { orders.push(o); }
             let mut cases = 0usize;
             for (oi, order) in orders.iter().enumerate() {
                 let hits = Arc::new(AtomicUsize::new(0));
+                let hits2 = Arc::new(AtomicUsize::new(0));
                 let seen = Arc::new(Mutex::new(Vec::new()));
                 let registry = Arc::new(Registry::new());
                 let mut router = Router::new();
@@ -1339,13 +1342,14 @@ fn run(v: &Value) -> Result<String, String> {
                         0 => { for e in exact { let tag = e.to_string(); router = router.with_json(e, move |_v| Ok(json!(format!("exact:{tag}")))); } }
                         1 => { router.register_registry("/r", registry.clone()); }
                         2 => { router.register_struct("/s", Rec { seen: seen.clone() }); }
-                        _ => { let h = hits.clone(); router.register_middleware(move |req: &Message, next: Next<'_>| -> Result<Message, RepeError> { h.fetch_add(1, Ordering::SeqCst); next.run(req) }); }
+                        3 => { let h = hits.clone(); router.register_middleware(move |req: &Message, next: Next<'_>| -> Result<Message, RepeError> { h.fetch_add(1, Ordering::SeqCst); next.run(req) }); }
+                        _ => { let h = hits2.clone(); router.register_middleware(move |req: &Message, next: Next<'_>| -> Result<Message, RepeError> { h.fetch_add(1, Ordering::SeqCst); next.run(req) }); }
                     }
                 }
                 let has_mw = order.contains(&3);
                 // on the orders after the first, only a thinned path set (the resolution logic does not depend on the order; the middleware wrapping does)
                 for (pi, path) in paths.iter().enumerate() {
-                    if oi > 0 && oi + 1 < orders.len() && pi % 7 != oi % 7 { continue; }
+                    if oi > 0 && pi % 7 != oi % 7 { continue; }
                     cases += 1;
                     let want: u8 = if exact.contains(&path.as_str()) { 0 } else if mounted("/r", path) { 1 } else if mounted("/s", path) { 2 } else { 9 };
                     let got = router.get(path);
@@ -1353,6 +1357,7 @@ fn run(v: &Value) -> Result<String, String> {
                     let Some(handler) = got else { continue };
                     let req = Message::builder().id(5).query_str(path).body_json(&json!(7)).map_err(|e| e.to_string())?.build();
                     let before = hits.load(Ordering::SeqCst);
+                    let before2 = hits2.load(Ordering::SeqCst);
                     match want {
                         0 => {
                             let resp = handler.handle(&req).map_err(|e| format!("exact route {path:?} failed: {e}"))?;
@@ -1390,22 +1395,27 @@ fn run(v: &Value) -> Result<String, String> {
                     let ran = hits.load(Ordering::SeqCst) - before;
                     let calls = if want == 1 && tokens(&path["/r".len()..]).is_some() { 1 } else if want == 1 { 0 } else { 1 };
                     if calls == 1 && ran != has_mw as usize { return Err(format!("order {order:?}: the forwarding middleware ran {ran} times for one request to {path:?} (kind {want}); expected {}", has_mw as usize)); }
+                    let ran2 = hits2.load(Ordering::SeqCst) - before2;
+                    if calls == 1 && ran2 != order.contains(&4) as usize { return Err(format!("order {order:?}: the second forwarding middleware ran {ran2} times for one request to {path:?} (kind {want}); expected {}", order.contains(&4) as usize)); }
                 }
             }
             // ---- owned vs borrowed vs middleware-wrapped, built-in handler kinds x body formats x bodies ----
             #[derive(serde::Serialize, serde::Deserialize)]
             struct P { a: i64 }
+            #[derive(serde::Serialize, serde::Deserialize)]
+            struct S2 { s: String }
             let build = |mw: usize| {
                 let mut r = Router::new()
                     .with_json("/json", |v| if v == json!(13) { Err((repe::ErrorCode::InvalidBody, "thirteen".into())) } else { Ok(json!({"got": v})) })
                     .with_typed("/typed", |p: P| Ok::<_, (repe::ErrorCode, String)>(P { a: p.a + 1 }))
+                    .with_typed("/typed_s", |p: S2| Ok::<_, (repe::ErrorCode, String)>(S2 { s: format!("{}!", p.s) }))
                     .with_typed_slice("/slice", |x: Vec<f64>| Ok::<_, (repe::ErrorCode, String)>(x.iter().map(|y| y * 2.0).collect::<Vec<f64>>()))
                     .with_typed_slice_ref("/sliceref", |x: &[u32]| Ok::<_, (repe::ErrorCode, String)>(x.iter().map(|y| y.wrapping_add(1)).collect::<Vec<u32>>()));
                 for _ in 0..mw { r.register_middleware(|req: &Message, next: Next<'_>| -> Result<Message, RepeError> { next.run(req) }); }
                 r
             };
             let routers = [build(0), build(1), build(3)];
-            let mut bodies: Vec<Vec<u8>> = vec![vec![], b"7".to_vec(), b"13".to_vec(), b"{\"a\":4}".to_vec(), b"{\"a\":".to_vec(), vec![0xff, 0xfe], b" 7 ".to_vec(), b"\"x\"".to_vec()];
+            let mut bodies: Vec<Vec<u8>> = vec![vec![0x22, 0xff, 0x22], b"{\"s\":\"\xff\xfe\"}".to_vec(), b"{\"s\":\"ok\"}".to_vec(), vec![], b"7".to_vec(), b"13".to_vec(), b"{\"a\":4}".to_vec(), b"{\"a\":".to_vec(), vec![0xff, 0xfe], b" 7 ".to_vec(), b"\"x\"".to_vec()];
             bodies.push(beve::to_vec(&json!({"a": 4})).unwrap());
             bodies.push(beve::to_vec(&vec![1.5f64, -2.0]).unwrap());
             bodies.push(beve::to_vec(&vec![1u32, u32::MAX]).unwrap());
@@ -1415,7 +1425,7 @@ fn run(v: &Value) -> Result<String, String> {
             // the dispatch layer echoes the request query into a response whose query is empty (documented on HandlerErased);
             // responses are compared after that step, which is where a client sees them
             let show = |r: &Result<Message, RepeError>, rq: &[u8]| match r { Ok(m) => format!("Ok(ec={} qf={} bf={} q={:?} body={:?})", m.header.ec, m.header.query_format, m.header.body_format, if m.query.is_empty() { rq } else { &m.query[..] }, m.body), Err(e) => format!("Err({e})") };
-            for path in ["/json", "/typed", "/slice", "/sliceref"] {
+            for path in ["/json", "/typed", "/typed_s", "/slice", "/sliceref"] {
                 for &bf in &formats { for body in &bodies {
                     let mut req = Message::builder().id(9).query_str(path).body_bytes(body.clone()).build();
                     req.header.body_format = bf;
